@@ -31,6 +31,7 @@ func runC03(c *core.Ctx) {
 	ruleEncOffBeforeXRef(c, "C03-R5")
 	ruleInStreamGuards(c, "C03-R6")
 	ruleSeparators(c, "C03-R7") // tokens must stay separated for an independent tokenizer too
+	rulePredictorGeometry(c, "C03-R8")
 }
 
 // literalsWritten collects constant strings written in fn (format strings of
